@@ -378,8 +378,10 @@ def linkify(
 
             if url != before_clip:
                 amp = url.rfind("&")
-                # avoid splitting html char entities
-                if amp > max_len - 5:
+                # avoid splitting html char entities: the text is already
+                # escaped, so an "&" with no ";" after it is an entity that
+                # was cut by the clipping above
+                if amp != -1 and ";" not in url[amp:]:
                     url = url[:amp]
                 url += "..."
 
